@@ -9,7 +9,7 @@ import (
 
 // Bounds of one program (DESIGN §7.C12).
 const (
-	MaxDepth = 4  // nesting of calls through func() bodies
+	MaxDepth = 5  // call levels: a package-level call plus func() bodies nested at most 4 deep
 	MaxCalls = 25 // calls per program, argument-position calls included
 )
 
@@ -74,9 +74,80 @@ func (g *Gen) Program(r *vc.Rand, id int) *prog.Program {
 	p := &prog.Program{ID: id}
 	k := r.Range(1, 6)
 	for i := 0; i < k && s.budget > 0; i++ {
+		if r.Chance(1, 3) {
+			p.Calls = append(p.Calls, s.chain())
+			continue
+		}
 		p.Calls = append(p.Calls, s.call(s.pick(""), 1, 0))
 	}
 	return p
+}
+
+// takesFunc reports whether a function can be given a func() body.
+func (g *Gen) takesFunc(fn string) bool {
+	for _, p := range g.by[fn].Params {
+		if p.Type == "func()" || (p.Variadic && p.Type == "any") {
+			return true
+		}
+	}
+	return false
+}
+
+// chain draws a target function and calls it inside the chain of contexts its
+// documentation asks for (e.g. Service > Method > HTTP > Response > Tag), each
+// level with random arguments and random siblings: misuse in the RIGHT place.
+func (s *pstate) chain() *prog.Call {
+	g := s.g
+	path := []string{pickS(s.r, g.all)}
+	for len(path) < MaxDepth {
+		cur := g.by[path[0]]
+		if cur.Top && s.r.Chance(3, 4) {
+			break
+		}
+		var ps []string
+		for _, p := range cur.Parents {
+			if g.takesFunc(p) {
+				ps = append(ps, p)
+			}
+		}
+		if len(ps) == 0 {
+			break
+		}
+		path = append([]string{pickS(s.r, ps)}, path...)
+	}
+	var build func(i int) *prog.Call
+	build = func(i int) *prog.Call {
+		c := s.call(path[i], i+1, 0)
+		if i+1 >= len(path) {
+			return c
+		}
+		next := build(i + 1)
+		var body *prog.Arg
+		for _, a := range c.Args {
+			if a != nil && a.K == prog.Func {
+				body = a
+			}
+		}
+		if body == nil {
+			body = &prog.Arg{K: prog.Func}
+			// put the body where the signature has room for it
+			placed := false
+			for j, p := range g.by[path[i]].Params {
+				if p.Type == "func()" && !p.Variadic && j < len(c.Args) {
+					c.Args[j] = body
+					placed = true
+					break
+				}
+			}
+			if !placed {
+				c.Args = append(c.Args, body)
+			}
+		}
+		at := s.r.Intn(len(body.Body) + 1)
+		body.Body = append(body.Body[:at], append([]*prog.Call{next}, body.Body[at:]...)...)
+		return c
+	}
+	return build(0)
 }
 
 func pickS(r *vc.Rand, xs []string) string { return xs[r.Intn(len(xs))] }
